@@ -538,6 +538,16 @@ Proof.
   rewrite E. apply IH. intros y Hy. apply H. right. exact Hy.
 Qed.
 
+Lemma enter_ok ds w :
+  d_holder ds = None ->
+  drun ds (EAcq w :: enter_events w) =
+  Some (mkD (Some w) (d_written ds) (fun u => if Nat.eqb u w then d_written ds else d_vis ds u)).
+Proof.
+  intros H. unfold enter_events. cbn [drun]. cbn [dstep]. rewrite H.
+  do 3 (cbn [drun dstep]; unfold holds; cbn [d_holder]; rewrite Nat.eqb_refl).
+  reflexivity.
+Qed.
+
 Lemma gstep_events_inside k g t st th n rest :
   nth_error (s_thr st) t = Some th -> t_calls th = n :: rest -> ~ outside (t_pc th) ->
   gstep_events Guarded k g t st =
@@ -548,7 +558,7 @@ Lemma gstep_events_inside k g t st th n rest :
     | inr res =>
         fin_events t res ++
         ERel t :: obs_events k t res sh' (result_cell n (s_sh st) (t_pc th)) ++
-        match s_waitq st with w :: _ => [EAcq w; EWr w LReg] | [] => [] end
+        match s_waitq st with w :: _ => EAcq w :: enter_events w | [] => [] end
     end.
 Proof.
   intros Ht Hc Hin. unfold gstep_events. rewrite Ht, Hc.
@@ -613,8 +623,7 @@ Proof.
       apply Hw in Hwin. destruct Hwin as (tw & Htw & Hpw).
       assert (Hwt : w <> t) by (intros ->; rewrite Ht in Htw; inversion Htw; subst tw; apply Hin; right; exact Hpw).
       rewrite nth_error_set_nth_neq by congruence. rewrite Htw.
-      cbn [drun dstep d_holder holds]. rewrite Nat.eqb_refl.
-      eexists. split; [reflexivity|]. split; cbn [s_sh s_lock d_holder d_written d_vis].
+      eexists. split; [apply enter_ok; reflexivity|]. split; cbn [s_sh s_lock d_holder d_written d_vis].
       * reflexivity.
       * intros c. rewrite H2. rewrite !linked_reset. tauto.
       * intros h Eh. inversion Eh; subst h. intros c Hc'. rewrite Nat.eqb_refl. exact Hc'.
@@ -631,8 +640,8 @@ Proof.
   - (* PEnter *)
     destruct (s_lock st) as [h|] eqn:El.
     + exists ds. split; [reflexivity|]. destruct R as [H1 H2 H3]. split; cbn [s_sh s_lock]; rewrite ?El in *; assumption.
-    + destruct R as [H1 H2 H3]. rewrite El in H1. cbn [drun dstep]. rewrite H1. cbn [holds d_holder]. rewrite Nat.eqb_refl.
-      eexists. split; [reflexivity|]. split; cbn [s_sh s_lock d_holder d_written d_vis].
+    + destruct R as [H1 H2 H3]. rewrite El in H1.
+      eexists. split; [apply enter_ok; exact H1|]. split; cbn [s_sh s_lock d_holder d_written d_vis].
       * reflexivity.
       * intros c. rewrite H2. symmetry. apply linked_reset.
       * intros h' Eh. inversion Eh; subst h'. intros c Hc'. rewrite Nat.eqb_refl. exact Hc'.
@@ -694,11 +703,12 @@ Lemma unguarded_has_race :
 Proof.
   intros H.
   assert (E : events Unguarded 3 [(0%N, [1%N]); (1%N, [])] [[0%N]; [0%N]] [0; 0; 0; 1; 1] =
-              [EWr 0 LReg; ERd 0 LMap; EWr 0 LMap; EWr 0 LReg; EWr 1 LReg; ERd 1 LMap;
-               ERd 1 (LCell 0); ERd 1 LReg; EWr 1 LMap; EWr 1 LReg]) by (vm_compute; reflexivity).
+              [EWr 0 LReg; ERd 0 LMap; EWr 0 LMap; ERd 0 LMap; EWr 0 LMap; EWr 0 LReg;
+               EWr 1 LReg; ERd 1 LMap; EWr 1 LMap; ERd 1 LMap; ERd 1 (LCell 0); ERd 1 LReg;
+               EWr 1 LMap; EWr 1 LReg]) by (vm_compute; reflexivity).
   rewrite E in H. clear E.
-  (* thread 0 writes sc.registered (position 3), thread 1 resets it (position 4): no lock operation at all *)
-  destruct (H 3 4 (EWr 0 LReg) (EWr 1 LReg)) as (r & a & H1 & H2 & H3 & _).
+  (* thread 0 appends to sc.registered (position 5), thread 1 resets it (position 6): no lock operation at all *)
+  destruct (H 5 6 (EWr 0 LReg) (EWr 1 LReg)) as (r & a & H1 & H2 & H3 & _).
   - lia.
   - reflexivity.
   - reflexivity.
